@@ -36,7 +36,7 @@ def run(ctx):
     ctx.model_check("net/MCDiscv5", ctx.pick("net/MCDiscv5", "net/MCDiscv5Thorough"), timeout=T, name="MCDiscv5",
                     workers=ctx.pick(4, 8))
     # ---- sessions: sampled attack schedules replayed on real codecs (R)
-    sim = ctx.tlc("net/MCDiscv5", "net/MCDiscv5Sim", simulate="num=%d" % ctx.pick(40, 600), depth=31, tags=("MBT",), timeout=T,
+    sim = ctx.tlc("net/MCDiscv5", "net/MCDiscv5Sim", simulate="num=%d" % ctx.pick(40, 600), depth=35, tags=("MBT",), timeout=T,
                   workers=4, name="MCDiscv5Sim", deadlock=False)
     if sim.timeout or sim.error:
         raise InfraError("MCDiscv5 simulation failed: %s\n%s" % (sim.error, sim.stdout[-2000:]))
